@@ -340,7 +340,7 @@ fn run(rec: &mut Rec) {
     }
     // C03's restart probe, judged on the serial stream: the blocks transmit their bank's byte
     {
-        let step = rec.ctx.tier.pick(0x20000usize, 0x4000);
+        let step = rec.ctx.tier.pick(0x20000usize, 0x8000);
         let mut k = 0usize;
         let mut target = 0x400000usize;
         while target < 0x7f0000 {
@@ -430,8 +430,11 @@ fn restart_probe_stream(rec: &mut Rec, target: usize) {
             pairs.push(a);
         }
         for (oj, oi) in pairs {
-            if oj.serial != oi.serial || oi.serial != vec![0x31] {
-                rec.violation("restart-probe-stream", case.clone(), format!("bank 1's block transmits its byte 0x31 once; with {} bytes of the translation area in use the jit build transmitted {:02x?}, the interpreter build {:02x?}", p.level, oj.serial, oi.serial));
+            // (how much of bank 1's run one step covers is the emulator's choice of block
+            // extent; what is fixed is that both builds transmit the same in that step, and
+            // never another bank's byte)
+            if oj.serial != oi.serial || oj.serial.iter().any(|b| *b != 0x31) {
+                rec.violation("restart-probe-stream", case.clone(), format!("bank 1's code transmits only its own byte 0x31; with {} bytes of the translation area in use the jit build transmitted {:02x?} in the step, the interpreter build {:02x?}", p.level, oj.serial, oi.serial));
                 break;
             }
         }
